@@ -57,14 +57,18 @@ CLAIMED = {
         note="The lift of Boehm's identity from basis functions to the model's composed matrices (for-all-u invariance of "
              "c_knot_insert) is work in progress (Proofs/InsertSeq.v); until then that clause rests on the per-case oracle."),
     "C17": dict(
-        text="U|V and U&V of the model are compared with the closed-form multiplicity law (degree max(p,q); per knot the larger of "
-             "the degree-lifted multiplicities; per-knot minimum for & at equal degrees), commutativity, idempotence, "
-             "well-formedness, operands unchanged, ValueError on different intervals - decided inside Coq for every generated pair; "
-             "WF of the results is proved for all inputs (kor_wf, kand_wf).",
+        text="Unbounded theorems (Props/C17.v), for all well-formed operands whose distinct knots are >= 1e-6 apart: U|V has "
+             "degree max(p,q) and, for every value x, multiplicity max of the degree-lifted multiplicities (per-knot maximum at "
+             "equal degrees); it refines both operands, adds no new knot, is commutative and idempotent, succeeds exactly on "
+             "equal intervals (ValueError otherwise); U&V has the per-knot minimum multiplicity and degree min(p,q); results are "
+             "well-formed; and the model's result equals the closed form (spec_or) that every implementation output is compared "
+             "with inside Coq. Tie: exhaustive small-scope pairs (all multiplicity vectors, shared/disjoint knots, different "
+             "degrees, different intervals) executed on the implementation and the model.",
         design="7/C17",
-        technique="Coq proof (well-formedness of union/intersection) + exhaustive small-scope pairs evaluated in Coq by vm_compute",
-        note="The multiplicity formula itself is checked per case in Coq (spec_or), not yet proved for all inputs; minimality "
-             "('coarsest') is not proved."),
+        technique="Coq proof (invariant of the per-knot merge loops; counting argument) + correspondence by vm_compute",
+        note="'Coarsest' is proved in the form 'no new knots and exactly the lifted multiplicities'; that no strictly coarser "
+             "vector carries both spline spaces (linear independence) is not formalised. Knots closer than 1e-6 are "
+             "outside the hypothesis `separated` (known finding K2)."),
     "C18": dict(
         text="Theorems (Props/C18.v): every generator result and every shift/scale/normalize result is a well-formed clamped "
              "vector (random = for every drawn weight list), non-positive scale refused, and Cox-de Boor functions of every "
